@@ -217,6 +217,13 @@ func runAccept(c *ctx) error {
 		return fmt.Errorf("restart failed: %v", err)
 	}
 	a.menu(4032, false)
+	// G: restart with the clock behind the persisted window offset
+	s.Close()
+	s.Tick(100)
+	if err := s.Start(); err != nil {
+		return fmt.Errorf("restart with the clock behind the offset failed: %v", err)
+	}
+	a.menu(4032, false)
 	s.Close()
 
 	if heavy {
